@@ -346,6 +346,34 @@ Proof.
   split; [apply all_hold_visible; auto|split; [apply all_hold_none_missing; auto|auto]].
 Qed.
 
+Lemma violated_sound_tight : forall p s drop, wf p -> guard_C03_function_zero_tight p (lookup s) drop = true ->
+  run p s drop = Err Violated ->
+  exists c r, In (c, r) (visible p (lookup s) drop) /\ ceval r c = Some false.
+Proof.
+  intros p s drop Hwf Hg Hr. pose proof (run_ref_tight p Hwf s drop Hg) as H. rewrite Hr in H.
+  destruct H as [H|[H|[_ [H|[]]]]]; try discriminate.
+  unfold verdict, verd in H.
+  destruct (first_fail (map ob_stat (obs p (lookup s) drop))) as [e|] eqn:E; [|discriminate].
+  inversion H; subst. apply first_fail_some in E. apply in_map_iff in E as [o [Ho Hin]].
+  destruct o; cbn in Ho;
+    try (destruct (eval rho e) as [q|]; try discriminate;
+         try (destruct (to_int q) as [z|]; try discriminate; try (destruct (z =? 0); discriminate));
+         try (destruct (Qlt_b q 0); discriminate)).
+  destruct (ceval rho c) as [[|]|] eqn:Ec; try discriminate.
+  exists c, rho. split; auto. unfold visible. apply in_flat_map. exists (OC c rho). split; auto. left; auto.
+Qed.
+
+Lemma user_violation_justified_exact : forall u values drop, uok u ->
+  guard_C03_function_zero_tight u (lookup (SDict values)) drop = true -> create_program u values drop = Err Violated ->
+  exists c r, In (c, r) (visible u (lookup (SDict values)) drop) /\ ceval r c = Some false.
+Proof.
+  intros u values drop Hu Hg Hr. unfold create_program in Hr.
+  rewrite <- (construct_guard_tight u _ drop Hu) in Hg.
+  destruct (violated_sound_tight _ _ _ (construct_wf u Hu) Hg Hr) as [c [r [Hin Hc]]].
+  destruct (Forall2_in_l _ _ _ _ _ _ (construct_visible u (lookup (SDict values)) drop Hu) Hin) as [[c' r'] [Hin' [E1 E2]]].
+  cbn in E1, E2. subst c'. exists c, r'. split; auto. congruence.
+Qed.
+
 (* ---- examples: the over-approximation exhibited in round 5 is gone, the finding itself stays outside ---- *)
 Example ex_tight_closes_overapprox :
   guard_C03_function_zero ex_guard_over (lookup (SDict [(0%N, 0%Q)])) [] = false
